@@ -226,6 +226,8 @@ def gen_model_cfg(rng: random.Random, tb: dict, shock_prone=False) -> dict:
             cfg["capital"]["shuffle"] = rng.randrange(1 << 30)
         if kind == "dataframe" and rng.random() < 0.4:
             cfg["capital"]["as_row"] = True
+        if kind == "ndarray" and random.Random(repr(cfg["capital"]["values"][:2]) + "lst").random() < 0.4:
+            cfg["capital"]["as_list"] = True
         if kind == "series" and random.Random(repr(cfg["capital"]["values"][:2]) + "cat").random() < 0.3:
             # the result of a groupby on categorical columns whose categories are in order of first appearance: the index levels
             # are categorical and their category order is not alphabetical
@@ -291,6 +293,8 @@ def build_model(tb: dict, cfg: dict, io=None, capital_perm=None, dict_order=None
         kw["productive_capital_to_VA_dict"] = reorder(cap["values"])
     elif cap["kind"] == "ndarray":
         kw["productive_capital_vector"] = np.array(cap["values"], dtype="int64" if cap.get("int_dtype") and max(cap["values"]) < 1e15 else float)
+        if cap.get("as_list"):
+            kw["productive_capital_vector"] = [float(v) for v in cap["values"]]          # a plain Python list
     elif cap["kind"] == "series":
         s = pd.Series(cap["values"], index=ind, dtype="int64" if cap.get("int_dtype") and max(cap["values"]) < 1e15 else float)
         if capital_perm is None and cap.get("shuffle") is not None:
